@@ -47,6 +47,8 @@ type SimLoader struct {
 	Faults []*armedFault
 	Fired  map[int]int
 	Off    bool // faults stopped
+	// Garbage is what an unparsable-content fault serves (must be invalid under the Set's delimiters)
+	Garbage string
 	OnCall func(c Call)
 }
 
@@ -144,7 +146,11 @@ func (l *SimLoader) Open(p string) (io.ReadCloser, error) {
 	l.rec(Call{"Open", p, "ok"})
 	if f := l.take(p, FaultGarbage); f != nil {
 		rc.Close()
-		return io.NopCloser(strings.NewReader("[garbage {{ if }} {{end}} {{")), nil
+		g := l.Garbage
+		if g == "" {
+			g = "[garbage {{ if }} {{end}} {{"
+		}
+		return io.NopCloser(strings.NewReader(g)), nil
 	}
 	if f := l.take(p, FaultReadError); f != nil {
 		return &faultReader{r: rc, failAt: f.k}, nil
